@@ -629,6 +629,26 @@ def gen_C11(rng):
     return sc
 
 
+def gen_C16(rng):
+    """End-to-end downloads to streaming destinations: stream retries with
+    differing chunk boundaries, and destination writes that fail with an
+    exception of the retryable network family (BrokenPipeError, timeout)."""
+    sc = gen_C02(rng)
+    for t in sc['transfers']:
+        t['dst'] = rng.choice(['nonseekable', 'nonseekable', 'fifo'])
+        t.pop('prev', None)
+    if rng.random() < 0.35:
+        i = rng.randrange(len(sc['transfers']))
+        t = sc['transfers'][i]
+        exc = rng.choice(['brokenpipe', 'brokenpipe', 'timeout', 'oserror'])
+        if t['dst'] == 'fifo':
+            sc['faults'].append({'site': 'fs', 'op': 'write', 'path': '/d/fifo%d' % i,
+                                 'nth': rng.randint(0, 3), 'exc': exc})
+        else:
+            sc['faults'].append({'site': 'dst', 't': i, 'nth': rng.randint(0, 3), 'exc': exc})
+    return sc
+
+
 def gen_C13(rng):
     """End-to-end transfers through a manager with max_bandwidth set."""
     sc = base(rng, [('upload', 4), ('download', 4)], nmax=3, short_reads=True, maxsize=36)
@@ -688,7 +708,7 @@ GENERATORS = {
     'C01': gen_C01, 'C02': gen_C02, 'C03': gen_C03, 'C04': gen_C04,
     'C05': gen_C05, 'C06': gen_C06, 'C07': gen_C07, 'C08': gen_C08,
     'C09': gen_C09, 'C10': gen_C10, 'C11': gen_C11, 'C18': gen_C18,
-    'C13': gen_C13,
+    'C13': gen_C13, 'C16': gen_C16,
 }
 
 
